@@ -1,5 +1,5 @@
 use std::sync::Arc;
-use std::sync::atomic::{AtomicU64, Ordering};
+use std::sync::atomic::{AtomicI64, AtomicU64, Ordering};
 
 #[derive(Debug, Default)]
 pub struct FlowMetrics {
@@ -7,7 +7,11 @@ pub struct FlowMetrics {
     total_sent_rows: AtomicU64,
     total_received_batches: AtomicU64,
     total_received_rows: AtomicU64,
-    pending_batches: AtomicU64,
+    // Signed: the receiver may account a batch (on_receive) before the sender has accounted it
+    // (on_send_success runs only after the channel send returned), so the counter can be
+    // transiently negative. Unsigned, it wrapped to u64::MAX and the `+ 1` in pending_inc
+    // panicked in overflow-checked builds, killing the sending task and truncating the stream.
+    pending_batches: AtomicI64,
     backpressure_events: AtomicU64,
     peak_pending: AtomicU64,
 }
@@ -50,7 +54,7 @@ impl FlowMetrics {
     }
 
     pub fn pending_batches(&self) -> u64 {
-        self.pending_batches.load(Ordering::Relaxed)
+        self.pending_batches.load(Ordering::Relaxed).max(0) as u64
     }
 
     pub fn peak_pending_batches(&self) -> u64 {
@@ -63,6 +67,10 @@ impl FlowMetrics {
 
     fn pending_inc(&self) {
         let pending = self.pending_batches.fetch_add(1, Ordering::Relaxed) + 1;
+        if pending <= 0 {
+            return;
+        }
+        let pending = pending as u64;
         loop {
             let current_peak = self.peak_pending.load(Ordering::Relaxed);
             if pending <= current_peak {
